@@ -345,7 +345,7 @@ func drawCase(t *rapid.T) *Case {
 	maxSize := 60
 	if c.TiesLimit == 1000 {
 		maxSize = 30 // keeps every tie group within the reference's range
-	} else if c.ExactLimit != 1000 && rapid.IntRange(0, 9).Draw(t, "big") == 0 {
+	} else if c.ExactLimit != 1000 && rapid.IntRange(0, 5).Draw(t, "big") == 0 {
 		maxSize = 400
 	}
 	var n1, n2 int
@@ -362,6 +362,16 @@ func drawCase(t *rapid.T) *Case {
 		if n2 > maxSize {
 			n2 = maxSize
 		}
+	case 3:
+		// a very large tie group inside one sample (hundreds of equal values)
+		if maxSize >= 400 {
+			n1, n2 = rapid.IntRange(250, 400).Draw(t, "n1big"), rapid.IntRange(1, 60).Draw(t, "n2small")
+			if rapid.Bool().Draw(t, "flipBig") {
+				n1, n2 = n2, n1
+			}
+		} else {
+			n1, n2 = rapid.IntRange(0, maxSize).Draw(t, "n1"), rapid.IntRange(0, maxSize).Draw(t, "n2")
+		}
 	default:
 		n1, n2 = rapid.IntRange(0, maxSize).Draw(t, "n1"), rapid.IntRange(0, maxSize).Draw(t, "n2")
 	}
@@ -374,6 +384,9 @@ func drawCase(t *rapid.T) *Case {
 		k = rapid.IntRange(1, maxOf(1, N)).Draw(t, "k")
 	default:
 		k = 3*N + 1 // mostly untied
+	}
+	if (n1 >= 250 || n2 >= 250) && rapid.IntRange(0, 2).Draw(t, "fewLevels") != 0 {
+		k = rapid.IntRange(2, 3).Draw(t, "kfew")
 	}
 	untiedExact := false
 	if rapid.IntRange(0, 4).Draw(t, "forceUntied") == 0 && N > 0 {
